@@ -254,6 +254,27 @@ func runC12(t *testing.T, s C12Scenario) (res Result) {
 				maxStored = h
 			}
 		}
+		// otherBatchAbove: some Append call that does not carry height h carries a height above it (on an empty store
+		// it may have initialised Head first, which makes h "at or below Height and not stored" for a moment)
+		otherBatchAbove := func(h uint64) bool {
+			for _, w := range s.Writers {
+				for _, c := range w {
+					has, above := false, false
+					for _, x := range c.heights(base) {
+						if x == h {
+							has = true
+						}
+						if x > h {
+							above = true
+						}
+					}
+					if above && !has {
+						return true
+					}
+				}
+			}
+			return false
+		}
 		tail, _ := e.st.Tail(ctx)
 		windowHit := false
 		for _, st := range sc.Trace {
@@ -285,7 +306,7 @@ func runC12(t *testing.T, s C12Scenario) (res Result) {
 					if cancelled && o.Err != "" {
 						break // released by its cancelled context: allowed
 					}
-					if s.Prefill == 0 && maxStored > o.Height && strings.HasPrefix(o.Err, "NOTFOUND") {
+					if s.Prefill == 0 && otherBatchAbove(o.Height) && strings.HasPrefix(o.Err, "NOTFOUND") {
 						// empty store: a batch above this height may have initialised Head first; the height
 						// was then "at or below Height and not stored", for which ErrNotFound is the stated answer
 						res.label("notfound_below_first_batch")
